@@ -3082,10 +3082,18 @@ where
                     }
 
                     let (vertex_key, hint) = result;
-                    if let Some(index) = index.as_deref_mut()
-                        && let Some(vertex) = self.tds.get_vertex_by_key(vertex_key)
-                    {
-                        index.insert_vertex(vertex_key, vertex.point().coords());
+                    if let Some(index) = index.as_deref_mut() {
+                        if tds_snapshot.number_of_cells() == 0 && self.tds.number_of_cells() > 0 {
+                            // The initial simplex was just built: the Tds was rebuilt and every
+                            // VertexKey re-issued. Re-key the whole index so that entries made
+                            // during the bootstrap phase cannot resolve to a different vertex.
+                            index.clear();
+                            for (vkey, existing) in self.tds.vertices() {
+                                index.insert_vertex(vkey, existing.point().coords());
+                            }
+                        } else if let Some(vertex) = self.tds.get_vertex_by_key(vertex_key) {
+                            index.insert_vertex(vertex_key, vertex.point().coords());
+                        }
                     }
 
                     return Ok((InsertionOutcome::Inserted { vertex_key, hint }, stats));
